@@ -223,7 +223,7 @@ func main() {
 	}
 	maxLen := 4
 	if vcommon.Thorough() {
-		maxLen = 5
+		maxLen = 6
 	}
 	if i, n, worker := vcommon.ShardSpec(); worker {
 		st := &stats{Distinct: map[string]bool{}}
